@@ -1,0 +1,26 @@
+//go:build verif
+
+package node
+
+import (
+	"reflect"
+
+	"ergo.services/ergo/gen"
+)
+
+// verification exports (build tag verif): the two permission lookups that RouteSpawn and
+// RouteApplicationStart consult, for a node created through the public API.
+
+// VerifGetEnabledSpawn calls network.getEnabledSpawn; the factory is reported by the type it creates.
+func VerifGetEnabledSpawn(n gen.Node, name gen.Atom, source gen.Atom) (string, error) {
+	factory, err := n.(*node).network.getEnabledSpawn(name, source)
+	if err != nil {
+		return "", err
+	}
+	return reflect.TypeOf(factory()).String(), nil
+}
+
+// VerifIsEnabledApplicationStart calls network.isEnabledApplicationStart.
+func VerifIsEnabledApplicationStart(n gen.Node, name gen.Atom, source gen.Atom) error {
+	return n.(*node).network.isEnabledApplicationStart(name, source)
+}
